@@ -369,3 +369,78 @@ def unrolled_view(fn: ast.AST, max_elts: int = 6) -> ast.AST:
     renumber(new.body)
     set_parents(new)
     return new
+
+
+def comp_view(fn: ast.AST) -> ast.AST:
+    """A private copy of *fn* in which the accumulate-in-a-loop idiom is written as the comprehension it is equivalent to:
+
+        X = {} ; for k, v in S.items(): [if C:] X[k] = v          ->  X = {k: v for k, v in S.items() [if C]}
+        X = [] ; for v in S: [if C:] X.append(E)                  ->  X = [E for v in S [if C]]
+        X = dict(S)                                               ->  X = {k: v for k, v in S.items()}
+
+    (only when the loop body is exactly that one statement, and X is not touched between its initialisation and the loop)."""
+    import copy
+
+    from .loader import set_parents
+
+    saved = getattr(fn, '_parent', None)
+    try:
+        if saved is not None:
+            fn._parent = None  # type: ignore[attr-defined]
+        new = copy.deepcopy(fn)
+    finally:
+        if saved is not None:
+            fn._parent = saved  # type: ignore[attr-defined]
+
+    def init_of(st: ast.stmt):
+        if isinstance(st, ast.Assign) and len(st.targets) == 1 and isinstance(st.targets[0], ast.Name):
+            return st.targets[0].id, st.value, st
+        if isinstance(st, ast.AnnAssign) and isinstance(st.target, ast.Name) and st.value is not None:
+            return st.target.id, st.value, st
+        return None
+
+    def set_value(st: ast.stmt, v: ast.expr) -> None:
+        st.value = ast.copy_location(v, st.value)  # type: ignore[attr-defined]
+        ast.fix_missing_locations(st)
+
+    def rewrite(block: list[ast.stmt]) -> None:
+        i = 0
+        while i < len(block):
+            st = block[i]
+            for f in ('body', 'orelse', 'finalbody'):
+                b = getattr(st, f, None)
+                if isinstance(b, list) and b and isinstance(b[0], ast.stmt) and not isinstance(st, FuncNode + (ast.ClassDef,)):
+                    rewrite(b)
+            for h in getattr(st, 'handlers', []) or []:
+                rewrite(h.body)
+            ini = init_of(st)
+            if ini is not None:
+                name, val, ist = ini
+                if isinstance(val, ast.Call) and isinstance(val.func, ast.Name) and val.func.id == 'dict' and len(val.args) == 1 and not val.keywords and isinstance(val.args[0], (ast.Name, ast.Attribute)):
+                    k, v = ast.Name(id='__k', ctx=ast.Load()), ast.Name(id='__v', ctx=ast.Load())
+                    tgt = ast.Tuple(elts=[ast.Name(id='__k', ctx=ast.Store()), ast.Name(id='__v', ctx=ast.Store())], ctx=ast.Store())
+                    it = ast.Call(func=ast.Attribute(value=val.args[0], attr='items', ctx=ast.Load()), args=[], keywords=[])
+                    set_value(ist, ast.DictComp(key=k, value=v, generators=[ast.comprehension(target=tgt, iter=it, ifs=[], is_async=0)]))
+                elif i + 1 < len(block) and isinstance(block[i + 1], ast.For) and not block[i + 1].orelse and len(block[i + 1].body) == 1:
+                    loop = block[i + 1]
+                    inner, conds = loop.body[0], []
+                    while isinstance(inner, ast.If) and not inner.orelse and len(inner.body) == 1:
+                        conds.append(inner.test)
+                        inner = inner.body[0]
+                    empty_dict = isinstance(val, ast.Dict) and not val.keys
+                    empty_list = isinstance(val, ast.List) and not val.elts
+                    if empty_dict and isinstance(inner, ast.Assign) and len(inner.targets) == 1 and isinstance(inner.targets[0], ast.Subscript) and isinstance(inner.targets[0].value, ast.Name) \
+                            and inner.targets[0].value.id == name:
+                        comp = ast.DictComp(key=inner.targets[0].slice, value=inner.value, generators=[ast.comprehension(target=loop.target, iter=loop.iter, ifs=conds, is_async=0)])
+                        set_value(ist, comp)
+                        del block[i + 1]
+                    elif empty_list and isinstance(inner, ast.Expr) and isinstance(inner.value, ast.Call) and isinstance(inner.value.func, ast.Attribute) and inner.value.func.attr == 'append' \
+                            and isinstance(inner.value.func.value, ast.Name) and inner.value.func.value.id == name and len(inner.value.args) == 1:
+                        comp = ast.ListComp(elt=inner.value.args[0], generators=[ast.comprehension(target=loop.target, iter=loop.iter, ifs=conds, is_async=0)])
+                        set_value(ist, comp)
+                        del block[i + 1]
+            i += 1
+
+    rewrite(new.body)
+    set_parents(new)
+    return new
